@@ -55,6 +55,12 @@ fn scenes(m: Method, backward: bool) -> Vec<Scene> {
     // the same oscillator in units of 1e-14 (span 1.5e-14): nothing in the protocol may depend on an
     // absolute time scale
     v.push(mk(crate::problems::timescale(&base(Base::Harmonic(2.0)), 1e14), 1.5e-14, 1e-5, 1e-8, false));
+    // dense output switched off at the builder: the same protocol without the interpolant
+    if m != Method::BDF {
+        let mut sc = mk(base(Base::Harmonic(2.0)), 1.5, 1e-5, 1e-8, false);
+        sc.cfg.low_dense = Some(false);
+        v.push(sc);
+    }
     v
 }
 
@@ -125,7 +131,9 @@ fn check_run(key: &str, m: Method, sc: &Scene, script: &[(usize, Ans)], base_run
             viol!("progress", format!("callback {}: no progress toward xend (xold={:e}, x={:e})", j, q.xold, q.x));
         }
         if !q.has_interp {
-            viol!("interpolant", format!("callback {} has no interpolant (builder default is dense output on)", j));
+            if c.low_dense != Some(false) {
+                viol!("interpolant", format!("callback {} has no interpolant (builder default is dense output on)", j));
+            }
             continue;
         }
         let sc_y = 1.0 + q.y.iter().chain(written[j - 1].iter()).fold(0.0f64, |a, b| a.max(b.abs()));
